@@ -192,11 +192,13 @@ def Topic.isAlmostFull (t : Topic) : Bool :=
   | none => false
   | some m => decide (m * 9 / 10 ≤ t.size)
 
-/-- get_next_partition_id: fetch_add(1); if the fetched value exceeds the count, use 1 and store 2 -/
+/-- get_next_partition_id on (cursor, partition count): fetch_add(1); if the fetched value exceeds
+the count, use 1 and store 2 -/
+def nextPid (cursor n : Nat) : Nat × Nat := if n < cursor then (1, 2) else (cursor, cursor + 1)
+
 def Topic.nextPartition (t : Topic) : Nat × Topic :=
-  let pid := t.cursor
-  if t.parts.length < pid then (1, { t with cursor := 2 })
-  else (pid, { t with cursor := t.cursor + 1 })
+  let r := nextPid t.cursor t.parts.length
+  (r.1, { t with cursor := r.2 })
 
 /-- calculate_partition_id_by_messages_key_hash -/
 def byKey (hash n : Nat) : Nat := if hash % n = 0 then n else hash % n
@@ -237,6 +239,23 @@ def errOf : Log.Err → String
   | .segmentClosed => "segment_closed"
   | .invalidOffset => "invalid_offset"
   | .offsetNotFound => "consumer_offset_not_found"
+
+/-- topics/messages.rs: append_messages (gate, partition choice, append) -/
+def Topic.send (t : Topic) (cfg : Cfg) (sc : SCfg) (sid now : Nat) (part : Partitioning)
+    (msgs : List InMsg) : Topic × Out × List Effect :=
+  if t.parts.isEmpty then (t, .err "no_partitions", []) else
+  if t.isFull && !sc.deleteOldest then (t, .err "topic_full", []) else
+  if msgs.isEmpty then (t, .ok, []) else
+  let (pid, t) := match part with
+    | .balanced => t.nextPartition
+    | .pid n => (n, t)
+    | .key h => (byKey h t.parts.length, t)
+  match find? t.parts pid with
+  | none => (t, .err "partition_not_found", [])
+  | some p =>
+    match p.append cfg now msgs with
+    | .error e => (t, .err (errOf e), [])
+    | .ok p' => (t.putPart pid p', .ok, [.appended (sid, t.id, pid) now msgs])
 
 def partInfo (e : Nat × Part) : PartInfo :=
   { id := e.1, cur := e.2.cur, msgs := e.2.cnt.msgs, size := e.2.cnt.size, segs := e.2.cnt.segs }
@@ -372,19 +391,8 @@ def step (y : Sys) : Op → Sys × Out × List Effect
       match s.findTopic ti with
       | .error e => (y, .err e, [])
       | .ok t =>
-        if t.parts.isEmpty then (y, .err "no_partitions", []) else
-        if t.isFull && !y.scfg.deleteOldest then (y, .err "topic_full", []) else
-        if msgs.isEmpty then (y, .ok, []) else
-        let (pid, t) := match part with
-          | .balanced => t.nextPartition
-          | .pid n => (n, t)
-          | .key h => (byKey h t.parts.length, t)
-        match find? t.parts pid with
-        | none => (y.putTopic s t, .err "partition_not_found", [])
-        | some p =>
-          match p.append y.cfg y.now msgs with
-          | .error e => (y.putTopic s t, .err (errOf e), [])
-          | .ok p' => (y.putTopic s (t.putPart pid p'), .ok, [.appended (s.id, t.id, pid) y.now msgs])
+        let (t', out, effs) := t.send y.cfg y.scfg s.id y.now part msgs
+        (y.putTopic s t', out, effs)
   | .poll si ti pid c k count auto =>
     if count = 0 then (y, .err "invalid_messages_count", []) else
     match y.findStream si with
